@@ -190,6 +190,25 @@ def warning_conditions(prog, an, rep):
               'commits')
     if not isinstance(inner, ast.For):
         return
+    # no integration branch is left out: from the start of an iteration of
+    # the outer loop, the commit loop is always reached
+    if isinstance(outer, ast.For):
+        ohead = c.stmt_node[id(outer)]
+        inner_ids = set(c.copies.get(id(inner), []))
+        starts = [s_ for s_ in c.succ[ohead] if c.nodes[s_].kind == 'true']
+        skip = None
+        for s0 in starts:
+            for tgt in (ohead, c.exit, c.raise_exit):
+                p_ = c.path(s0, tgt, removed=inner_ids, use_exc=False)
+                if p_ is not None and skip is None:
+                    skip = p_
+        rep.evaluated()
+        rep.check(skip is None, R, f.qname + ': the commits of every '
+                  'integration branch are examined', f.where(outer),
+                  'an integration branch can be skipped (or the analysis '
+                  'left) before its commits are examined: manual work on it '
+                  'is discarded without a warning',
+                  path=c.describe_path(skip))
     rev = inner.target.id
     B = outer.target.id
     # what the inner loop ranges over: commits of the branch not on its
